@@ -1,3 +1,5 @@
+#[cfg(mos_verif_threads)]
+use mos_simrt::std_shim as std;
 use derive_more::{Add, From, Into, Sub, UpperHex};
 use std::fmt::{Display, Formatter};
 use std::ops::{Add, Deref, Range};
